@@ -312,7 +312,7 @@ def make_termination(batches, betas, D=1):
 # ------------------------------------------------------------------ evidence after the loop
 
 
-def make_evidence(batches, betas, D=1):
+def make_evidence(batches, betas, D=1, resumed=False):
     def harness(ctx: PathCtx):
         smp = make_sampler(blobs=False)
         core = smp._core
@@ -323,6 +323,7 @@ def make_evidence(batches, betas, D=1):
             # a run may legally stop with 1 - beta < 1e-4: the reported evidence must still be the one at beta = 1
             smp.state._current.update({"iter": 5, "calls": 50, "beta": 0.99995, "logz": LogVal.of_positive(stale)})
         core._initialize_fresh = fresh
+        core._initialize_from_resume = lambda path: fresh()  # resumed=True: the same terminal pre-state arrives from a checkpoint
         core._not_termination = lambda: False
         asked = []
         real_compute = smp.state.compute_logw_and_logz
@@ -332,7 +333,7 @@ def make_evidence(batches, betas, D=1):
             return real_compute(1.0 if beta_final != 1.0 else beta_final, normalize)
         smp.state.compute_logw_and_logz = recording
         with patched(sm_mod, np=NpProxy(exact_log=True)):
-            smp.run(n_total=1, progress=False)
+            smp.run(n_total=1, progress=False, **({"resume_state_path": "vf_resumed.state"} if resumed else {}))
             ev = smp.evidence()
         ctx.check("final-evidence-is-evaluated-at-beta=1", z3.BoolVal(bool(asked) and all(float(b) == 1.0 for b in asked)), detail=[str(b) for b in asked])
         spec = spec_weights(pb, Fraction(1), D)
@@ -357,16 +358,17 @@ def make_evidence(batches, betas, D=1):
         core = smp._core
         stale = math.log(float(m["stale_logz_exp"]))
         core._initialize_fresh = lambda: st._current.update({"iter": 5, "calls": 50, "beta": 0.99995, "logz": stale})
+        core._initialize_from_resume = lambda path: core._initialize_fresh()
         core._not_termination = lambda: False
-        smp.run(n_total=1, progress=False)
+        smp.run(n_total=1, progress=False, **({"resume_state_path": "vf_resumed.state"} if resumed else {}))
         ev = smp.evidence()[0]
         from vf.props.c04 import mis_reference
         _, ref = mis_reference(st, 1.0)  # independent of the function under test
         return {"reproduced": not math.isclose(ev, ref, rel_tol=1e-12, abs_tol=1e-9), "signature": "evidence-after-run",
                 "payload": {"evidence": ev, "recomputed": ref, "beta_at_termination": 0.99995},
-                "what": f"run() ending at beta=0.99995: evidence() = {ev} but MIS evidence at beta=1 from the history = {ref}"}
+                "what": f"run({'resume_state_path=...' if resumed else ''}) ending at beta=0.99995 without a further iteration: evidence() = {ev} but MIS evidence at beta=1 from the history = {ref}"}
 
-    return Obligation(f"evidence-hist{'x'.join(map(str, batches))}", harness, replay=replay,
+    return Obligation(f"evidence-{'resumed-' if resumed else ''}hist{'x'.join(map(str, batches))}", harness, replay=replay,
                       encodes=[core_mod.SamplerCore.run_sampling, core_mod.SamplerCore.compute_evidence, Sampler.evidence],
                       bounds=f"history {batches}, betas {list(map(str, betas))}; the loop is skipped (pre-state terminal), only the code after it runs",
                       stubs=["_not_termination -> False, _initialize_fresh -> terminal symbolic state (harness-constructed pre-state)"],
@@ -385,6 +387,7 @@ def obligations(tier):
     obs.append(make_resume_target())  # ESS >= n_total of *this* call also when the run is resumed
     obs.append(make_termination((2, 1), (Fraction(0), Fraction(1))))
     obs.append(make_evidence((2, 1), (Fraction(0), Fraction(1))))
+    obs.append(make_evidence((2, 1), (Fraction(0), Fraction(1)), resumed=True))  # a resumed run that needs no further iteration
     obs.append(make_posterior_after_replacement((2, 1)))
     if tier == "thorough":
         for flags in combos:
